@@ -115,6 +115,10 @@ type condSink[R any] interface {
 	pred(func(R, error) bool)
 }
 
+// altTargets: register error types through the other documented spelling of the target (pointer instead of value and
+// vice versa): HandleErrorTypes(T{}) and HandleErrorTypes(&T{}) mean the same type
+var altTargets bool
+
 func applyConds[R any](cs []cond, mk func(string) R, onErrs func(...error), onTypes func(...any), onResult func(R), onIf func(func(R, error) bool)) {
 	// registrations of one kind go through ONE variadic call, as users write HandleErrors(a, b) / HandleErrorTypes(A{}, B{})
 	var errs []error
@@ -126,11 +130,23 @@ func applyConds[R any](cs []cond, mk func(string) R, onErrs func(...error), onTy
 		case "types":
 			switch c.V {
 			case "TV":
-				types = append(types, TV{})
+				if altTargets {
+					types = append(types, &TV{})
+				} else {
+					types = append(types, TV{})
+				}
 			case "TP":
-				types = append(types, &TP{})
+				if altTargets {
+					types = append(types, TP{})
+				} else {
+					types = append(types, &TP{})
+				}
 			case "WT":
-				types = append(types, WT{})
+				if altTargets {
+					types = append(types, &WT{})
+				} else {
+					types = append(types, WT{})
+				}
 			}
 		}
 	}
@@ -276,6 +292,7 @@ func rowSig(row classRow, way string) string {
 
 func init() {
 	modes["classify_rows"] = func(t *testing.T) {
+		altTargets = envInt("VH_ALT", 0) == 1
 		var n, bad, nontriv atomic.Int64
 		var sample atomic.Value
 		parallelLines(t, func(t *testing.T, line []byte) {
